@@ -8,7 +8,7 @@ from .absint import Val, MAX_CONCRETE_ITERS
 from .absint_ops import Machine
 
 
-MAX_LOOP_STATES = 40
+MAX_LOOP_STATES = 24
 
 
 class Undecided(Exception):
@@ -170,6 +170,7 @@ class LoopMachine(Machine):
                 log = []
                 self.store_log = log
                 h.trace = ()
+                hstart = h.fork()
                 cont, brk, ret, exitf = self.one_iteration(h, cond, inc, body, cond_first)
                 self.store_log = None
                 new = False
@@ -195,38 +196,86 @@ class LoopMachine(Machine):
                     break
             else:
                 raise AnalysisBroken('loop %s: modified set did not stabilise' % lid)
-            # ---- affine induction variables: every continuing path adds the same constant
-            induct = {}
-            hv = {}
-            for (oid, key), (n, ty, _) in mods.items():
-                if ty is None or ty.kind != 'int' or oid in smashed:
+            # cells written only on leaving paths (break/return) are not loop-carried: every
+            # continuing path of the most general iteration leaves them as they were
+            for (oid, key) in list(mods):
+                if oid in smashed:
                     continue
-                o = h.objs.get(oid)
-                start = self.havoc_atoms.get((lid, oid, key))
-                if start is None:
+                o0 = hstart.objs.get(oid)
+                c0 = o0.cells.get(key) if o0 is not None else None
+                if c0 is None:
                     continue
-                step = None
-                okv = bool(cont)
+                carried = False
                 for s2 in cont:
                     o2 = s2.objs.get(oid)
-                    if o2 is None:
+                    c2 = o2.cells.get(key) if o2 is not None else None
+                    if c2 is None or c2[0] != c0[0] or s2.canon(c2[1]) != s2.canon(c0[1]):
+                        carried = True
+                        break
+                if not carried and cont:
+                    del mods[(oid, key)]
+            # ---- affine induction variables: guess from the first iteration, then check inductively
+            self.obs = {}
+            h0 = entry.fork()
+            h0.trace = ()
+            cont0, _b, _r, _e = self.one_iteration(h0, cond, inc, body, cond_first)
+            cands = {}
+            for (oid, key), (n, ty, _) in mods.items():
+                if ty is None or ty.kind != 'int' or oid in smashed or oid not in entry.objs:
+                    continue
+                init = mem.load_scalar(entry, entry.objs[oid].copy(), term_of_lin(Lin(dict(key[0]), key[1])), ty)
+                if init == UNINIT or init[0] in ('ptr', 'pset', 'fn'):
+                    continue
+                step = None
+                okv = bool(cont0)
+                for s2 in cont0:
+                    o2 = s2.objs.get(oid)
+                    cell = o2.cells.get(key) if o2 is not None else None
+                    if cell is None or cell[0] != n or cell[1][0] in ('ptr', 'pset', 'fn'):
                         okv = False
                         break
-                    cell = o2.cells.get(key)
-                    if cell is None or cell[0] != n:
+                    l = lin_of(s2.canon(cell[1])).add(lin_of(entry.canon(init)), -1)
+                    if not l.is_const() or (step is not None and step != l.k):
                         okv = False
                         break
-                    l = lin_of(s2.canon(cell[1])).add(lin_of(start), -1)
-                    if not l.is_const():
-                        okv = False
-                        break
-                    if step is None:
-                        step = l.k
-                    elif step != l.k:
-                        okv = False
-                        break
-                if okv and step is not None and step != 0:
-                    induct[(oid, key)] = step
+                    step = l.k
+                if okv and step:
+                    cands[(oid, key)] = step
+            kterm = ('sym', 'iter:' + lid, 0, INF)
+            for _round in range(6):
+                if not cands:
+                    break
+                self.obs = {}
+                hv_ = entry.fork()
+                self.apply_havoc(hv_, lid, mods, smashed, cands, entry)
+                hv_.trace = ()
+                contv, _b, _r, _e = self.one_iteration(hv_, cond, inc, body, cond_first)
+                badc = set()
+                for (oid, key), step in cands.items():
+                    n, ty, _ = mods[(oid, key)]
+                    init = mem.load_scalar(entry, entry.objs[oid].copy(), term_of_lin(Lin(dict(key[0]), key[1])), ty)
+                    expect = lin_of(entry.canon(init)).add(Lin({kterm: step}, step))
+                    for s2 in contv:
+                        o2 = s2.objs.get(oid)
+                        cell = o2.cells.get(key) if o2 is not None else None
+                        if cell is None or cell[0] != n:
+                            badc.add((oid, key))
+                            break
+                        l = lin_of(s2.canon(cell[1])).add(expect, -1)
+                        if not (l.is_const() and l.k == 0):
+                            if getattr(self, 'debug_loops', False):
+                                print('   cell', short(s2.canon(cell[1])), 'expected', expect, [repr(f) for f in s2.facts])
+                            badc.add((oid, key))
+                            break
+                if not badc:
+                    break
+                if getattr(self, 'debug_loops', False):
+                    print('loop', lid, 'candidates rejected', badc, 'of', cands)
+                for c in badc:
+                    del cands[c]
+            else:
+                cands = {}
+            induct = cands
             # ---- probe run with the closed forms: where do symbolic-offset stores land?
             symstores = []
             if smashed:
